@@ -357,7 +357,19 @@ def rule_precedence(r):
                     "'@' branch builds a product", ln)
 
 
+def rule_stateless(r):
+    """Each component is evaluated from this call's arguments only (shared with C11 R-C11-state, mixture classes)."""
+    from .c11 import rule_state
+    from ..report import Rule
+    tmp = Rule("R-C11-state", 0, "")
+    rule_state(tmp)
+    for i in tmp.instances:
+        if i["file"] == "sasmodels/mixture.py":
+            getattr(r, i["status"])(i["file"], i["function"], i["construct"], i["line"], i["detail"])
+
+
 RULES = [
+    ("R-C08-stateless", 3, "no state carried between evaluations of a mixture", rule_stateless),
     ("R-C08-accum", 1, "init/accumulate decision independent of accumulated values", rule_accum),
     ("R-C08-identity", 2, "each operator combines with its own operation", rule_identity),
     ("R-C08-layout", 20, "part slices agree with table construction order (linear forms)", rule_layout),
